@@ -186,9 +186,14 @@ func (in In) I32s(k string) []int32 {
 	return r
 }
 
+// toBytes rebuilds a byte slice, also with spare capacity holding garbage beyond its length.
 func toBytes(v interface{}) []byte {
 	l := toIs(v)
-	r := make([]byte, len(l))
+	full := make([]byte, len(l)+3)
+	for i := range full {
+		full[i] = 0xa5
+	}
+	r := full[:len(l)]
 	for i, x := range l {
 		if x < 0 || x > 255 {
 			fatalf("byte out of range: %d", x)
@@ -243,8 +248,17 @@ func (in In) BM(k string) []uint64 {
 	return bmFrom(o.Int("nw"), o.Is("ones"))
 }
 
+// bmFrom rebuilds a bitmap as a slice WITH SPARE CAPACITY holding all-ones garbage beyond its length, so
+// that code confusing len and cap, or reading past the end, is visible (it must behave as for an exact slice).
 func bmFrom(nw int, ones []int64) []uint64 {
-	w := make([]uint64, nw)
+	full := make([]uint64, nw+2)
+	for i := range full {
+		full[i] = ^uint64(0)
+	}
+	w := full[:nw]
+	for i := range w {
+		w[i] = 0
+	}
 	for _, p := range ones {
 		if p < 0 || int(p>>6) >= nw {
 			fatalf("bit %d outside %d words", p, nw)
